@@ -1,11 +1,217 @@
 package main
 
-import "github.com/bluenviron/gomavlib/v3/pkg/message"
+import (
+	"math"
+	"reflect"
+	"strconv"
 
-// MsgJ is the JSON form of a decoded message (filled in by the message engine).
-type MsgJ struct {
-	Type string `json:"type"`
-	Vals []B    `json:"vals"`
+	"github.com/bluenviron/gomavlib/v3/pkg/dialect"
+	"github.com/bluenviron/gomavlib/v3/pkg/dialects/all"
+	"github.com/bluenviron/gomavlib/v3/pkg/dialects/ardupilotmega"
+	"github.com/bluenviron/gomavlib/v3/pkg/dialects/asluav"
+	"github.com/bluenviron/gomavlib/v3/pkg/dialects/avssuas"
+	"github.com/bluenviron/gomavlib/v3/pkg/dialects/common"
+	"github.com/bluenviron/gomavlib/v3/pkg/dialects/csairlink"
+	"github.com/bluenviron/gomavlib/v3/pkg/dialects/cubepilot"
+	"github.com/bluenviron/gomavlib/v3/pkg/dialects/development"
+	"github.com/bluenviron/gomavlib/v3/pkg/dialects/icarous"
+	"github.com/bluenviron/gomavlib/v3/pkg/dialects/loweheiser"
+	"github.com/bluenviron/gomavlib/v3/pkg/dialects/matrixpilot"
+	"github.com/bluenviron/gomavlib/v3/pkg/dialects/minimal"
+	"github.com/bluenviron/gomavlib/v3/pkg/dialects/paparazzi"
+	"github.com/bluenviron/gomavlib/v3/pkg/dialects/pythonarraytest"
+	"github.com/bluenviron/gomavlib/v3/pkg/dialects/standard"
+	"github.com/bluenviron/gomavlib/v3/pkg/dialects/storm32"
+	"github.com/bluenviron/gomavlib/v3/pkg/dialects/test"
+	"github.com/bluenviron/gomavlib/v3/pkg/dialects/ualberta"
+	"github.com/bluenviron/gomavlib/v3/pkg/dialects/uavionix"
+	"github.com/bluenviron/gomavlib/v3/pkg/message"
+)
+
+type namedDialect struct {
+	Name string
+	D    *dialect.Dialect
 }
 
-func msgToJ(m message.Message) *MsgJ { return nil }
+var shipped = []namedDialect{
+	{"all", all.Dialect}, {"ardupilotmega", ardupilotmega.Dialect}, {"asluav", asluav.Dialect},
+	{"avssuas", avssuas.Dialect}, {"common", common.Dialect}, {"csairlink", csairlink.Dialect},
+	{"cubepilot", cubepilot.Dialect}, {"development", development.Dialect}, {"icarous", icarous.Dialect},
+	{"loweheiser", loweheiser.Dialect}, {"matrixpilot", matrixpilot.Dialect}, {"minimal", minimal.Dialect},
+	{"paparazzi", paparazzi.Dialect}, {"pythonarraytest", pythonarraytest.Dialect}, {"standard", standard.Dialect},
+	{"storm32", storm32.Dialect}, {"test", test.Dialect}, {"ualberta", ualberta.Dialect}, {"uavionix", uavionix.Dialect},
+}
+
+// FieldJ / DefJ: the reflected Go struct of a message, as MavMessage!FromGo expects it.
+type FieldJ struct {
+	GoName  B      `json:"goname"`
+	MavName B      `json:"mavname"`
+	GoKind  string `json:"gokind"`
+	MavEnum string `json:"mavenum"`
+	Arr     int    `json:"arr"`
+	MavLen  int    `json:"mavlen"`
+	Ext     bool   `json:"ext"`
+}
+
+type DefJ struct {
+	GoName B        `json:"goname"`
+	Type   string   `json:"type"`
+	ID     int      `json:"id"`
+	Fields []FieldJ `json:"fields"`
+}
+
+func typeName(m message.Message) string {
+	t := reflect.TypeOf(m).Elem()
+	return t.PkgPath() + "." + t.Name()
+}
+
+func defOf(m message.Message) DefJ {
+	t := reflect.TypeOf(m).Elem()
+	d := DefJ{GoName: B(t.Name()), Type: t.PkgPath() + "." + t.Name(), ID: int(m.GetID()), Fields: []FieldJ{}}
+	for i := 0; i < t.NumField(); i++ {
+		f := t.Field(i)
+		fj := FieldJ{GoName: B(f.Name), MavName: B(f.Tag.Get("mavname")), MavEnum: f.Tag.Get("mavenum"),
+			MavLen: -1, Ext: f.Tag.Get("mavext") == "true"}
+		gt := f.Type
+		if gt.Kind() == reflect.Array {
+			fj.Arr = gt.Len()
+			gt = gt.Elem()
+		}
+		fj.GoKind = gt.Kind().String()
+		if l := f.Tag.Get("mavlen"); l != "" {
+			n, err := strconv.Atoi(l)
+			if err != nil {
+				n = -2
+			}
+			fj.MavLen = n
+		}
+		d.Fields = append(d.Fields, fj)
+	}
+	return d
+}
+
+func elemBytes(v reflect.Value) B {
+	switch v.Kind() {
+	case reflect.String:
+		return B(v.String())
+	case reflect.Uint8, reflect.Uint16, reflect.Uint32, reflect.Uint64:
+		return le(v.Uint(), int(v.Type().Size()))
+	case reflect.Int8, reflect.Int16, reflect.Int32, reflect.Int64:
+		return le(uint64(v.Int()), int(v.Type().Size()))
+	case reflect.Float32:
+		return le(uint64(math.Float32bits(float32(v.Float()))), 4)
+	case reflect.Float64:
+		return le(math.Float64bits(v.Float()), 8)
+	}
+	return B{}
+}
+
+// float32 values must travel bit for bit: reflect's Float() widens, which keeps NaN payloads on amd64
+// but to be independent of that we read the memory through the typed pointer.
+func elemBytesExact(v reflect.Value) B {
+	if v.Kind() == reflect.Float32 && v.CanAddr() {
+		p := v.Addr().Interface().(*float32)
+		return le(uint64(math.Float32bits(*p)), 4)
+	}
+	if v.Kind() == reflect.Float64 && v.CanAddr() {
+		p := v.Addr().Interface().(*float64)
+		return le(math.Float64bits(*p), 8)
+	}
+	return elemBytes(v)
+}
+
+// valsOf projects a decoded message: per field a list of elements.
+func valsOf(m message.Message) [][]B {
+	v := reflect.ValueOf(m).Elem()
+	out := make([][]B, v.NumField())
+	for i := 0; i < v.NumField(); i++ {
+		f := v.Field(i)
+		if f.Kind() == reflect.Array {
+			out[i] = make([]B, f.Len())
+			for k := 0; k < f.Len(); k++ {
+				out[i][k] = elemBytesExact(f.Index(k))
+			}
+		} else {
+			out[i] = []B{elemBytesExact(f)}
+		}
+	}
+	return out
+}
+
+func setElem(v reflect.Value, b B) {
+	switch v.Kind() {
+	case reflect.String:
+		v.SetString(string(b))
+	case reflect.Uint8, reflect.Uint16, reflect.Uint32, reflect.Uint64:
+		v.SetUint(fromLE(b))
+	case reflect.Int8:
+		v.SetInt(int64(int8(fromLE(b))))
+	case reflect.Int16:
+		v.SetInt(int64(int16(fromLE(b))))
+	case reflect.Int32:
+		v.SetInt(int64(int32(fromLE(b))))
+	case reflect.Int64:
+		v.SetInt(int64(fromLE(b)))
+	case reflect.Float32:
+		*(v.Addr().Interface().(*float32)) = math.Float32frombits(uint32(fromLE(b)))
+	case reflect.Float64:
+		*(v.Addr().Interface().(*float64)) = math.Float64frombits(fromLE(b))
+	}
+}
+
+// newMsg allocates a fresh message of the same type as proto and fills it.
+func newMsg(proto message.Message, vals [][]B) message.Message {
+	t := reflect.TypeOf(proto).Elem()
+	p := reflect.New(t)
+	v := p.Elem()
+	for i := 0; i < v.NumField() && i < len(vals); i++ {
+		f := v.Field(i)
+		if f.Kind() == reflect.Array {
+			for k := 0; k < f.Len() && k < len(vals[i]); k++ {
+				setElem(f.Index(k), vals[i][k])
+			}
+		} else if len(vals[i]) > 0 {
+			setElem(f, vals[i][0])
+		}
+	}
+	return p.Interface().(message.Message)
+}
+
+// zeroVals gives the all-zero assignment for a message type.
+func zeroVals(proto message.Message) [][]B {
+	return valsOf(newMsg(proto, nil))
+}
+
+// MsgJ is the JSON form of a decoded message.
+type MsgJ struct {
+	Type string `json:"type"`
+	ID   int    `json:"id"`
+	Vals [][]B  `json:"vals"`
+}
+
+func msgToJ(m message.Message) *MsgJ {
+	if m == nil {
+		return nil
+	}
+	if raw, ok := m.(*message.MessageRaw); ok {
+		return &MsgJ{Type: "raw", ID: int(raw.ID), Vals: [][]B{{B(raw.Payload)}}}
+	}
+	return &MsgJ{Type: typeName(m), ID: int(m.GetID()), Vals: valsOf(m)}
+}
+
+// distinctMessages lists every distinct message struct type of the shipped dialects
+// (plus the harness's own user structs) in a deterministic order.
+func distinctMessages() []message.Message {
+	seen := map[reflect.Type]bool{}
+	var out []message.Message
+	for _, nd := range shipped {
+		for _, m := range nd.D.Messages {
+			t := reflect.TypeOf(m)
+			if !seen[t] {
+				seen[t] = true
+				out = append(out, m)
+			}
+		}
+	}
+	return out
+}
